@@ -300,5 +300,175 @@ def translate_queries(srcdir):
     return "\n".join(out), fps
 
 
+# ------------------------------------------------------------------ (3) _iter_cached as a statement program
+
+# the statements of `_iter_cached` in the numbering of Model/Cache.lean (124 = the `def` line): the program counters.
+# The real function is aligned to this listing by its TEXT; statements without a model line are FOLDED into the node before them
+# and must be exactly the ones the vocabulary knows (`gen = None`, `if cache is self._cache:`, the `except Exception` handler).
+MODEL_LISTING = [
+    "def _iter_cached(self):", "i = 0", "gen = self._cache_gen", "cache = self._cache", "acquire = self._cache_lock.acquire",
+    "release = self._cache_lock.release", "while gen:", "if i == len(cache):", "acquire()", "try:",
+    "if self._cache_complete and cache is self._cache:",
+    "break", "try:", "for j in range(10):", "cache.append(advance_iterator(gen))", "except StopIteration:",
+    "self._cache_gen = None", "self._cache_complete = True", "break", "finally:", "release()", "yield cache[i]", "i += 1",
+    "while i < len(cache):", "yield cache[i]", "i += 1"]
+
+
+def _pc(line):
+    return ".l%d" % line
+
+
+class CFG:
+    """nodes of `_iter_cached`: (pc, op, next, alt, exc).  Control flow from the nesting: a `break` inside the try/finally leaves
+    through the `finally` (its `release()` node has alt = the statement after the loop); the end of a loop body returns to the loop test."""
+    def __init__(self):
+        self.nodes = []
+
+    def emit(self, pc, op, nxt, alt=None, exc=None):
+        extra = ""
+        if alt is not None:
+            extra += ", alt := %s" % alt
+        if exc is not None:
+            extra += ", exc := %s" % exc
+        self.nodes.append("{ pc := %s, op := %s, next := %s%s }" % (pc, op, nxt, extra))
+
+
+def translate_iter_cached(tree):
+    fn = find_method(tree, "rrulebase", "_iter_cached")
+    u = ast.unparse
+    b = fn.body
+    if len(b) != 7:
+        raise U(fn, "_iter_cached: seven top-level statements expected")
+    pro = [u(x) for x in b[:5]]
+    if pro != ["i = 0", "gen = self._cache_gen", "cache = self._cache", "acquire = self._cache_lock.acquire", "release = self._cache_lock.release"]:
+        raise U(fn, "_iter_cached: prologue")
+    w1, w2 = b[5], b[6]
+    if not (isinstance(w1, ast.While) and u(w1.test) == "gen" and not w1.orelse and len(w1.body) == 3):
+        raise U(w1, "_iter_cached: `while gen:`")
+    iff, y1, inc1 = w1.body
+    if not (isinstance(iff, ast.If) and u(iff.test) == "i == len(cache)" and not iff.orelse and len(iff.body) == 2
+            and u(iff.body[0]) == "acquire()" and isinstance(iff.body[1], ast.Try)):
+        raise U(iff, "_iter_cached: fill test")
+    tf = iff.body[1]
+    if not (not tf.handlers and not tf.orelse and len(tf.finalbody) == 1 and u(tf.finalbody[0]) == "release()" and len(tf.body) == 2):
+        raise U(tf, "_iter_cached: try/finally")
+    ifc, tfill = tf.body
+    if not (isinstance(ifc, ast.If) and u(ifc.test) == "self._cache_complete and cache is self._cache" and not ifc.orelse
+            and len(ifc.body) == 1 and isinstance(ifc.body[0], ast.Break)):
+        raise U(ifc, "_iter_cached: completion test")
+    if not (isinstance(tfill, ast.Try) and not tfill.orelse and not tfill.finalbody and len(tfill.body) == 1 and isinstance(tfill.body[0], ast.For)):
+        raise U(tfill, "_iter_cached: fill try")
+    fr = tfill.body[0]
+    if not (u(fr.target) == "j" and isinstance(fr.iter, ast.Call) and u(fr.iter.func) == "range" and len(fr.iter.args) == 1
+            and isinstance(fr.iter.args[0], ast.Constant) and isinstance(fr.iter.args[0].value, int) and not fr.orelse
+            and len(fr.body) == 1 and u(fr.body[0]) == "cache.append(advance_iterator(gen))"):
+        raise U(fr, "_iter_cached: fill loop")
+    batch = fr.iter.args[0].value
+    hs = tfill.handlers
+    if not hs or u(hs[0].type) != "StopIteration":
+        raise U(tfill, "_iter_cached: `except StopIteration` first")
+    hb = [x for x in hs[0].body]
+    # gen = None / if cache is self._cache: (self._cache_gen = None; self._cache_complete = True) / break
+    guarded = (len(hb) == 3 and u(hb[0]) == "gen = None" and isinstance(hb[1], ast.If) and u(hb[1].test) == "cache is self._cache" and not hb[1].orelse
+               and [u(x) for x in hb[1].body] == ["self._cache_gen = None", "self._cache_complete = True"] and isinstance(hb[2], ast.Break))
+    if not guarded:
+        raise U(hs[0], "_iter_cached: StopIteration handler")
+    defers = False
+    if len(hs) == 2:
+        h2 = hs[1]
+        defers = (u(h2.type) == "Exception" and len(h2.body) == 1 and isinstance(h2.body[0], ast.If) and u(h2.body[0].test) == "i == len(cache)"
+                  and not h2.body[0].orelse and len(h2.body[0].body) == 1 and isinstance(h2.body[0].body[0], ast.Raise) and h2.body[0].body[0].exc is None)
+        if not defers:
+            raise U(h2, "_iter_cached: second handler")
+    elif len(hs) != 1:
+        raise U(tfill, "_iter_cached: handlers")
+    if not (u(y1) == "yield cache[i]" and u(inc1) == "i += 1"):
+        raise U(w1, "_iter_cached: yield / increment of the fill loop")
+    if not (isinstance(w2, ast.While) and u(w2.test) == "i < len(cache)" and not w2.orelse and [u(x) for x in w2.body] == ["yield cache[i]", "i += 1"]):
+        raise U(w2, "_iter_cached: tail loop")
+    # program counters: the statements in source order, numbered like the model's listing
+    order = [("i0", b[0]), ("gen", b[1]), ("cache", b[2]), ("acq", b[3]), ("rel", b[4]), ("w1", w1), ("iff", iff), ("acquire", iff.body[0]), ("try1", tf),
+             ("ifc", ifc), ("brk1", ifc.body[0]), ("try2", tfill), ("for", fr), ("append", fr.body[0]), ("exstop", hs[0]),
+             ("sgen", hb[1].body[0]), ("scomp", hb[1].body[1]), ("brk2", hb[2]), ("fin", None), ("release", tf.finalbody[0]), ("y1", y1), ("inc1", inc1),
+             ("w2", w2), ("y2", w2.body[0]), ("inc2", w2.body[1])]
+    L = {}
+    line = 125
+    prev = fn.lineno
+    for name, node in order:
+        L[name] = _pc(line)
+        line += 1
+    # source order must be increasing (the listing is the source order)
+    seq = [n.lineno if n is not None and not isinstance(n, ast.ExceptHandler) else None for _, n in order]
+    last = 0
+    for (name, node), ln in zip(order, seq):
+        if ln is not None:
+            if ln <= last:
+                raise U(node, "_iter_cached: statement order")
+            last = ln
+    c = CFG()
+    after_loop = L["w2"]
+    c.emit(L["i0"], ".setI0", L["gen"])
+    c.emit(L["gen"], ".loadGen", L["cache"])
+    c.emit(L["cache"], ".loadCache", L["acq"])
+    c.emit(L["acq"], ".loadAcquire", L["rel"])
+    c.emit(L["rel"], ".loadRelease", L["w1"])
+    c.emit(L["w1"], ".whileGen", L["iff"], alt=after_loop)
+    c.emit(L["iff"], ".ifNeedFill", L["acquire"], alt=L["y1"])
+    c.emit(L["acquire"], ".acquire", L["try1"])
+    c.emit(L["try1"], ".tryEnter", L["ifc"])
+    c.emit(L["ifc"], ".ifCompleteOwn", L["brk1"], alt=L["try2"])
+    c.emit(L["brk1"], ".brk", L["release"])                       # break inside try/finally: through the finally
+    c.emit(L["try2"], ".tryFill", L["for"])
+    c.emit(L["for"], ".forRange %d" % batch, L["append"], alt=L["release"])     # loop exhausted: end of the try body, into the finally
+    c.emit(L["append"], ".appendNext %s" % ("true" if defers else "false"), L["for"], alt=L["exstop"], exc=L["release"])
+    c.emit(L["exstop"], ".exceptStop true", L["sgen"])
+    c.emit(L["sgen"], ".storeGenNone", L["scomp"])
+    c.emit(L["scomp"], ".storeComplete", L["brk2"])
+    c.emit(L["brk2"], ".brk", L["release"])
+    c.emit(L["release"], ".release", L["y1"], alt=after_loop)      # normal exit: after the `if`; via break: after the loop
+    c.emit(L["y1"], ".yieldFill", L["inc1"])
+    c.emit(L["inc1"], ".incFill", L["w1"])
+    c.emit(L["w2"], ".whileTail", L["y2"])
+    c.emit(L["y2"], ".yieldTail", L["inc2"])
+    c.emit(L["inc2"], ".incTail", L["w2"])
+    text = "/-- translated from `rrule.py:rrulebase._iter_cached` -/\ndef iterCachedProgram : List CachePy.Node :=\n  [" + ",\n   ".join(c.nodes) + "]\n"
+    return text, fp(fn)
+
+
+def translate_invalidate(tree):
+    fn = find_method(tree, "rrulebase", "_invalidate_cache")
+    u = ast.unparse
+
+    def st(s):
+        t = u(s)
+        if isinstance(s, ast.If) and u(s.test) == "self._cache is not None" and not s.orelse:
+            return ".ifCached [%s]" % ", ".join(st(x) for x in s.body)
+        if t == "self._cache = []":
+            return ".newCache"
+        if t == "self._cache_complete = False":
+            return ".completeFalse"
+        if t == "self._cache_gen = _restartable(self._iter)":
+            return ".newGen true"
+        if t == "self._cache_gen = self._iter()":
+            return ".newGen false"
+        if isinstance(s, ast.If) and u(s.test) == "self._cache_lock.locked()" and not s.orelse and [u(x) for x in s.body] == ["self._cache_lock.release()"]:
+            return ".ifLockedRelease"
+        if t == "self._generation += 1":
+            return ".bumpGeneration"
+        if t == "self._len = None":
+            return ".lenNone"
+        raise U(s, "_invalidate_cache: statement")
+    text = "/-- translated from `rrule.py:rrulebase._invalidate_cache` -/\ndef invalidateProgram : List CachePy.IStmt :=\n  [%s]\n" % ", ".join(st(s) for s in strip_doc(fn.body))
+    return text, fp(fn)
+
+
+def translate_cache(srcdir):
+    tree = ast.parse(open(os.path.join(srcdir, "rrule.py")).read())
+    t1, f1 = translate_iter_cached(tree)
+    t2, f2 = translate_invalidate(tree)
+    return t1 + "\n" + t2, {"rrulebase._iter_cached": f1, "rrulebase._invalidate_cache": f2}
+
+
 # (Generated module, Lean import, translator function)
-MODULES = [("RRBaseQueries", "DateutilVerif.Model.ScanPy", "translate_queries")]
+MODULES = [("RRBaseQueries", "DateutilVerif.Model.ScanPy", "translate_queries"),
+           ("RRBaseCache", "DateutilVerif.Model.CachePy", "translate_cache")]
